@@ -205,6 +205,33 @@ def check(ctx):
                     Pc, nc = span_proj(b)
                     if not same_span(Pc, Pfull)[0]:
                         ctx.fail("oracle", f"C07/oracle/large-cutoff/order{order}", f"{sc['name']} order {order}: cutoff {cut:.4f} beyond every distance gives {nc} basis vectors, no cutoff gives {nfull}", replay=rep, has_input=True)
+        # a radius that coincides bit for bit with an interatomic distance as the library computes it: a pair at distance >= cutoff
+        # is out of range, so these pairs must vanish (strict comparison)
+        try:
+            Dimpl = np.asarray(FCCutoff(at, cutoff=1.0).distances)
+            cands = sorted(set(Dimpl[Dimpl > 1e-8].tolist()))
+            for cexact in (cands[:1] + cands[len(cands) // 2: len(cands) // 2 + 1]):
+                for order in (2, 3):
+                    if N ** order * 3 ** order > 300000:
+                        continue
+                    try:
+                        b = Symfc(at, cutoff={order: cexact}).compute_basis_set(orders=[order]).basis_set[order]
+                    except (IndexError, ValueError):
+                        continue
+                    ctx.case({"cell": sc["name"], "order": order, "cutoff_on_a_shell": cexact}, nontrivial=True)
+                    ctx.count("api-cutoff-on-shell")
+                    if b.basis_set.shape[1]:
+                        T = full_basis_tensors(b, order, N)
+                        far = np.zeros((N,) * order, dtype=bool)
+                        for tpl in itertools.product(range(N), repeat=order):
+                            if any(Dimpl[a, c] >= cexact for a in tpl for c in tpl):
+                                far[tpl] = True
+                        mx = float(np.abs(T[:, far]).max()) if far.any() else 0.0
+                        if mx != 0.0:
+                            ctx.fail("oracle", f"C07/oracle/on-shell/order{order}", f"{sc['name']} order {order}: with the cutoff equal to an interatomic distance ({cexact!r}) an element containing a pair at exactly that distance is {mx:.2e}, not zero",
+                                     replay={"cell": sc["name"], "lattice": sc["lattice"].tolist(), "positions": sc["positions"].tolist(), "numbers": [int(x) for x in sc["numbers"]], "order": order, "cutoff": cexact}, has_input=True)
+        except (IndexError, ValueError):
+            pass
         # per-order dictionary: a cutoff given only for order 3 must not affect order 2
         c3 = bounds[0]
         try:
